@@ -111,7 +111,8 @@ def expression_forms():
             ('obj-empty', '{ }'), ('obj-1', '{ p : $a }'),
             ('obj-2', '{ p : $a , q : $b }'), ('obj-trail', '{ p : $a , }'),
             ('obj-str', "{ 'p' : $a }"), ('obj-num', '{ 1 : $a }'),
-            ('obj-kw', '{ if : $a }'), ('obj-getname', '{ get : $a }'),
+            ('obj-kw', '{ if : $a }'), ('obj-kw-value', '{ p : $a . throw }'),
+            ('obj-getname', '{ get : $a }'),
             ('obj-get', '{ get p ( ) { $s } }'),
             ('obj-get-empty', '{ get p ( ) { } }'),
             ('obj-set', '{ set p ( v ) { $s } }'),
@@ -130,6 +131,7 @@ def expression_forms():
         fs.append(F(nm, spec, MEMBER, s=S(), t=S(('y', SEMI))))
     fs.append(F('dot', '$o . p', MEMBER, o=E(CALL, 'a')))
     fs.append(F('dot-kw', '$o . if', MEMBER, o=E(CALL, 'a')))
+    fs.append(F('dot-kw-return', '$o . return', MEMBER, o=E(CALL, 'a')))
     fs.append(F('bracket', '$o [ $e ]', MEMBER, o=E(CALL, 'a'),
                 e=E(COMMA, 'b')))
     fs.append(F('new', 'new $c', NEWNOARGS, c=E(MEMBER, 'a', newcallee=True)))
